@@ -53,6 +53,9 @@ def instances(tier, seed):
     out = []
     for name in dsg_pool.CONN_TEMPLATES:
         out.append(dict(label=f'scenario {name}', kind='scenario', template=name))
+    # two models that differ in one connector flag, evaluated one after the other in one process and cache directory
+    out.append(dict(label='scenario_pair conn_rep_a then conn_rep_b', kind='scenario_pair', templates=['conn_rep_a', 'conn_rep_b']))
+    out.append(dict(label='scenario_pair conn_rep_b then conn_rep_a', kind='scenario_pair', templates=['conn_rep_b', 'conn_rep_a']))
     kinds = ['list', 'range', 'open']
     ks = [1, 2] if tier == 'quick' else [1, 2, 3]
     for k in ks:
@@ -195,6 +198,11 @@ def _matrix_of_edges(edges, srcs, tgts):
     for a, b in edges:
         m[srcs.index(a)][tgts.index(b)] += 1
     return m
+
+
+def _run_scenario_pair(inst, res):
+    for name in inst['templates']:
+        _run_scenario(dict(template=name), res)
 
 
 def _run_scenario(inst, res):
